@@ -21,10 +21,10 @@ def parseSwaps (s : String) : Option (List (Nat × Nat)) :=
 def seedsOf (g : Bytes) : Grease.Seeds := Grease.seedsOfBytes g
 
 /-- the per-connection material reported on the output side of a line. -/
-def materialOf (c : Case) (serverName : Bytes) (omitPsk : Bool) : Option Material := do
+def materialOf (c : Case) (serverName : Bytes) (omitPsk : Bool) (sfx : String := "") : Option Material := do
   let g ← c.output.bytes "gseed"
-  let random ← c.output.bytes "random"
-  let sid ← c.output.bytes "sid"
+  let random ← c.output.bytes ("random" ++ sfx)
+  let sid ← c.output.bytes ("sid" ++ sfx)
   let keys ← (c.output.get "keys").bind Drv.C08.parseHexList
   let ticket ← match c.output.get "ticket" with
     | some t => (unhex t).map some
